@@ -273,6 +273,9 @@ def generic_run(pid, tier, seed, plan, make_jobs, signature, describe, settings_
     if explore_plan:
         camp.replay_model("tut1x2e", 6 if tier == "quick" else 40, seed=seed + 1)
         camp.replay_model("tut13x2e", 4 if tier == "quick" else 40, seed=seed + 2)
+    if tier != "quick":
+        # the thorough tier must end within the hour per check on 16 cores: schedule counts of the plans are scaled
+        plan = [(a, b, max(16, int(c * THOROUGH_SCALE))) for a, b, c in plan]
     for name, params, n in plan:
         inst = make_instance(name, params).prepare()
         jobs = make_jobs(inst, rng, n)
@@ -314,6 +317,7 @@ def replay(pid, path):
 
 
 STRUCT = ["TypeOK", "PathContinuous"]
+THOROUGH_SCALE = float(os.environ.get("VERIF_THOROUGH_SCALE", "0.4"))
 
 
 def explore_plan(tier, inv, retries=False, removable=False, residue=False, lost=False):
